@@ -1,10 +1,10 @@
 package main
 
 import (
-	"go/types"
 	"fmt"
 	"go/constant"
 	"go/token"
+	"go/types"
 	"math"
 	"sort"
 	"strings"
@@ -920,7 +920,8 @@ func ruleStateInitialised(w *World, r *Report, pfx string) {
 			}
 			if k, ok := constInt(p.R(p.val(ev, ia.Index)).V); ok {
 				slots[k] = true
-			} else {
+			}
+			{
 				// a loop over the slots: accepted when it walks every index of the array
 				for _, l := range naturalLoops(st.Parent()) {
 					if l.Blocks[st.Block()] {
@@ -962,6 +963,7 @@ func ruleStateInitialised(w *World, r *Report, pfx string) {
 				if clo == nil {
 					continue
 				}
+				clo = boundTarget(clo)
 				// the closure that builds the state: calls the constructor
 				calls := false
 				for _, b := range clo.Blocks {
@@ -997,6 +999,15 @@ func ruleStateInitialised(w *World, r *Report, pfx string) {
 				for _, e2 := range p.Events[:ev.Idx] {
 					if st, ok := e2.In.(*ssa.Store); ok && cell != nil && st.Addr == ssa.Value(cell) && st.Val != fillerP {
 						replaced = true
+					}
+				}
+				// (when the filler variable is not captured there is no cell: the replacement is a fresh
+				// filler built on the path that tested the argument nil)
+				if !replaced && p.hasCmp(ev.Idx, token.EQL, isFiller, isNilVal) {
+					for _, e2 := range p.Events[:ev.Idx] {
+						if c, ok := e2.In.(*ssa.Call); ok && c.Call.IsInvoke() && c.Call.Method.Name() == "Build" {
+							replaced = true
+						}
 					}
 				}
 				if !nonNil && !replaced {
